@@ -89,6 +89,16 @@ def run_unit(unit_name, tier, seed, only_props=None):
             at = re.findall(r"^\s+--> (src/[^\n]*)", out, re.M)
             last = re.findall(r"N5CASE ([^\n]*)", out)
             ub = "Miri: Undefined Behavior: %s%s; last case started: %s" % (m.group(1) if m else "?", (" at " + at[0]) if at else "", last[-1] if last else "?")
+        # a panic inside the REAL code (not inside the overlaid test module) while a part of the
+        # enumeration was running is a failure of that part, not a tool problem
+        real_panic = None
+        for pm in re.finditer(r"thread '[^']*' \(\d+\) panicked at ([^\n]+?):(\d+):(\d+):\n([^\n]*)", out):
+            if "verif_n" not in pm.group(1):
+                last = re.findall(r"N\dCASE ([^\n]*)", out)
+                real_panic = "the real code panicked at %s:%s: %s%s" % (pm.group(1), pm.group(2), pm.group(4)[:200], ("; last case started: " + last[-1][:300]) if last else "")
+                break
+        if real_panic and not ub:
+            ub = real_panic
         if not lines and not result["error"] and not ub:
             errs = re.findall(r"^error.*(?:\n.*){0,8}", out, re.M)
             result["error"] = "native stage produced no result (does the overlay still compile against /repo?): " + "\n".join(errs[:2])[:900]
